@@ -3,7 +3,7 @@
    compared coefficient-wise with the model assembly; rows returned by
    HigherOrderComposite are re-evaluated on the polynomial. *)
 From Coq Require Import List ZArith QArith Qcanon Bool Arith.
-From Dimod Require Import Base.Util Model.Poly Model.HPoly Model.Reduce.
+From Dimod Require Import Base.Util Model.Poly Model.HPoly Model.HPolyPy Model.PolyCtor Model.Reduce.
 Import ListNotations.
 Open Scope Qc_scope.
 
@@ -20,7 +20,18 @@ Inductive case :=
        (rows : list (list Qc * Qc * bool))
 (* the rows the child sampler returned and the rows HigherOrderComposite returned, in order *)
 | CHocFull (raw : hpoly) (cons : list cons3) (discard : bool) (vars_child vars_out : list label)
-           (child_rows : list (list Qc)) (out_rows : list (list Qc * Qc * bool)).
+           (child_rows : list (list Qc)) (out_rows : list (list Qc * Qc * bool))
+(* a BinaryPolynomial constructor (Model/PolyCtor.v): the items of the polynomial it built, what the exporter of its
+   own vartype returned (to_hubo / to_hising, h as singleton terms), what the exporter of the other vartype returned *)
+| CCtor (k : ctor) (items : hpoly) (back cross : hpoly * Qc) (assigns : list (list (label * Qc)))
+(* the polynomial handed to a pipeline (its items) is the normalised form of the terms it was built from *)
+| CInput (vt : vartype) (raw items : hpoly)
+(* only the function is documented (to_spin().to_binary() and back): same value at the given assignments *)
+| CFun (vt : vartype) (raw items : hpoly) (assigns : list (list (label * Qc)))
+(* HigherOrderComposite.sample_poly(initial_state=...): expand_initial_state gives every product variable its product
+   (in constraint order) and every auxiliary spin its minimiser; `expanded` is the state the child sampler received,
+   `child_energy` the energy of the QUADRATIC model at that state *)
+| CInit (vt : vartype) (raw : hpoly) (cons : list cons4) (init expanded : list (label * Qc)) (child_energy : Qc).
 
 Definition input_ok (vt : vartype) (raw items : hpoly) : bool :=
   hpoly_eqb (normalise vt raw) items && terms_nodup items.
@@ -69,4 +80,26 @@ Definition check (c : case) : bool :=
       list_eqb (fun x y => list_eqb Qc_eqb (fst (fst x)) (fst (fst y)) && Qc_eqb (snd (fst x)) (snd (fst y))
                            && Bool.eqb (snd x) (snd y))
         (polymorph_rows raw cs discard vc vo child_rows) out_rows
+  | CCtor k items back cross assigns =>
+      let m := ctor_model k in
+      let vt := ctor_vt k in
+      let spec := ctor_spec k in
+      hdict_items_eqb m items && terms_nodup items
+      && (let '(bt, bo) := export_model vt m in hdict_items_eqb bt (fst back) && Qc_eqb bo (snd back))
+      && (let '(ct, co) := cross_model vt m in hpoly_eqb ct (fst cross) && Qc_eqb co (snd cross))
+      && forallb (fun asg => let a := sample_of_list asg in
+                    Qc_eqb (henergy items a) (henergy spec a)
+                    && Qc_eqb (henergy (fst back) a + snd back) (henergy spec a)
+                    && Qc_eqb (henergy (fst cross) (cross_sample vt a) + snd cross) (henergy spec a)) assigns
+  | CInput vt raw items => input_ok vt raw items
+  | CFun vt raw items assigns =>
+      terms_nodup items
+      && forallb (fun asg => let a := sample_of_list asg in Qc_eqb (henergy items a) (henergy raw a)) assigns
+  | CInit vt raw cs init expanded child_energy =>
+      let a := sample_of_list init in
+      let e := extend (map drop_aux cs) a in
+      let m := match vt with SPIN => set_aux cs e | _ => e end in
+      forallb (fun lv => Qc_eqb (m (fst lv)) (snd lv)) expanded
+      && (length expanded =? length init + length cs + match vt with SPIN => length cs | _ => 0 end)%nat
+      && Qc_eqb child_energy (henergy raw a)
   end.
